@@ -375,7 +375,9 @@ func (s *Server) conforming(x *Exchange) reply {
 	if x.Malformed != "" {
 		return problem(400, ProblemMalformed, x.Malformed)
 	}
-	if x.NonceIssued-x.NonceSeen <= 0 {
+	// A nonce is good once: never issued, or presented before (even if this server issued
+	// the same value twice) -> badNonce.
+	if x.NonceIssued == 0 || x.NonceSeen > 0 {
 		return problem(400, ProblemBadNonce, "unknown or already used nonce")
 	}
 	if x.JWKNotKID {
